@@ -124,6 +124,10 @@ def oracle(lines):
         for kname, v in s["counts"].items():
             if kname.startswith("small_null_") and v != 1:
                 fail("impl:bound-heap-no-null", "a bound heap whose arena is full still served small requests (%s)" % kname, wit0)
+            if kname == "refill_null" and v != 0:
+                fail("impl:refill-null", "a heap bound to an exclusive one-block arena returned NULL for a whole-block request although no block was live and the OS refused nothing "
+                     "(%d of the rounds; after a small block was allocated and freed only a retired page keeps the segment: _mi_malloc_generic must collect and retry)" % v,
+                     wit0 + "; p = mi_heap_malloc(h, small); mi_free(p); mi_heap_malloc(h, 20 MiB) == NULL")
             if kname in ("setup_failed", "manage_failed", "reserve_failed"):
                 fail("impl:arena-setup", "the harness could not create its arenas (%s)" % kname, wit0)
             stats[kname] += v
